@@ -49,7 +49,7 @@ ENTRIES = {
 }
 
 
-def scope(tk, prop, closure=False):
+def scope(tk, prop, closure=False, depth=None):
     p = tk.ctx.program
     ent = ENTRIES.get(prop)
     if prop == "C17":
@@ -60,4 +60,18 @@ def scope(tk, prop, closure=False):
     if closure:
         reach = tk.R.reachable([f.qual for f in fs])
         fs = [p.funcs[q] for q in sorted(reach) if q in p.funcs]
+    elif depth:
+        # the entries plus the helpers they call, `depth` call edges deep
+        E = tk.R.edges()
+        seen = dict((f.qual, 0) for f in fs)
+        frontier = list(seen)
+        for d in range(1, depth + 1):
+            nxt = []
+            for q in frontier:
+                for h in E.get(q, ()):
+                    if h not in seen and h in p.funcs:
+                        seen[h] = d
+                        nxt.append(h)
+            frontier = nxt
+        fs = fs + [p.funcs[q] for q in sorted(seen) if seen[q] > 0]
     return fs
